@@ -35,6 +35,7 @@ RULE = (
     "orders of the same files give the same exit code (also where {1,3} leaves open which one). Thorough (a few in quick): a seed-"
     "chosen sample is repeated with `python -m cutplace.applications` subprocesses and must give the same code. "
     "Non-trivial: >= 2 data files, or an existing data file with --until 3/4. Distinct by construction."
+    "A valid CSV CID behind a byte order mark (the API decides whether it loads) and fixed-width data files are part of the matrix."
 )
 ASSUMPTIONS = [
     "per-file reference verdicts come from cutplace.validate on a fresh Cid (the statement defines the exit code in "
